@@ -15,7 +15,7 @@ import numpy as np
 
 from . import alignrec as ar
 from . import tlc
-from .common import MachineryError, import_repo, seed
+from .common import MachineryError, breadcrumb, import_repo, seed
 
 G_SCALE = 8          # family G: dyadic tables, 1.0 = 8 units
 R_SCALE = 1 << 14    # family R: tables observed through the compiled form
@@ -79,6 +79,11 @@ UNIVERSES = {
     "3x2de05": dict(na=3, maxu=2, dvals="{0, 2, 6, 14}", de=4, sample=6),
     "4x1": dict(na=4, maxu=1, dvals="{0, 10, 20}", de=8, sample=0),
     "4x2": dict(na=4, maxu=2, dvals="{0, 6, 12, 20}", de=8, sample=2),
+    # one pair far apart (4..9 delta_empty), the rest close: a tuple may be optimal although one of its pairs is very costly
+    "3x1hi": dict(na=3, maxu=1, dvals="{0, 30, 36, 44}", de=8, sample=0),
+    "4x1hi": dict(na=4, maxu=1, dvals="{0, 52}", de=8, sample=0),
+    "4x1hi3": dict(na=4, maxu=1, dvals="{0, 44, 52, 68}", de=8, sample=0),
+    "3x2hi": dict(na=3, maxu=2, dvals="{0, 6, 36, 44}", de=8, sample=6),
     "5x1": dict(na=5, maxu=1, dvals="{2, 18}", de=8, sample=0),
     "5x2": dict(na=5, maxu=2, dvals="{0, 8, 18}", de=8, sample=1),
 }
@@ -136,6 +141,7 @@ def run_modes(pa, c, d, D, de_int, scale, tol, band, *, backends, modes, search,
     recs = []
     cand_obs = None
     bestcost = -1
+    breadcrumb("aligning " + json.dumps({k: v for k, v in (meta or {}).items() if k != "D"}, default=str)[:1500])
     for mode in modes:
         for be in backends:
             ar.last_solver()
@@ -172,7 +178,10 @@ def continuum_summary(c):
 def l2_records(pa, insts, backends, modes, rng, violations, limit=None):
     recs = []
     if limit and len(insts) > limit:
-        insts = rng.sample(insts, limit)
+        # the small "one costly pair" universes are always replayed in full; the rest is thinned
+        keep = [i for i in insts if "hi" in i.get("universe", "")]
+        rest = [i for i in insts if "hi" not in i.get("universe", "")]
+        insts = keep + rng.sample(rest, max(0, min(len(rest), limit - len(keep))))
     for p in insts:
         inst = p["inst"]
         n = inst["n"]
@@ -412,15 +421,15 @@ def run_property(pid, tier, rep):
     both = ["CBC", "GLPK_MI"]
     if pid == "C01":
         l1_align_mutants(rep)
-        insts = l1_align(rep, ["2x2", "3x1", "4x1"] if quick else ["2x2", "2x2de2", "2x3", "3x1", "3x2", "4x1", "4x2", "5x1", "5x2"],
+        insts = l1_align(rep, ["2x2", "3x1", "4x1", "3x1hi", "4x1hi"] if quick else ["2x2", "2x2de2", "2x3", "3x1", "3x2", "4x1", "4x2", "5x1", "5x2", "3x1hi", "4x1hi3", "3x2hi"],
                          emit=True, sample_mult=1 if quick else 4)
         recs = l2_records(pa, insts, both, ["partition"], rng, violations, limit=350 if quick else None)
         recs += l3_records(pa, rng, 300 if quick else 4000, both, ["partition"], violations,
                            shapes=[(2, 6), (3, 5), (4, 4), (5, 3), (2, 12), (3, 7)], search=False, cands=False, recompute=False)
     elif pid == "C02":
         l1_align_mutants(rep)
-        insts = l1_align(rep, ["2x2", "2x2de2", "3x1"] if quick else list(UNIVERSES), emit=True, sample_mult=1 if quick else 4)
-        recs = l2_records(pa, insts, both, ["partition"], rng, violations, limit=300 if quick else None)
+        insts = l1_align(rep, ["2x2", "2x2de2", "3x1", "3x1hi", "4x1hi"] if quick else list(UNIVERSES), emit=True, sample_mult=1 if quick else 4)
+        recs = l2_records(pa, insts, both, ["partition"], rng, violations, limit=380 if quick else None)
         recs += l3_records(pa, rng, 200 if quick else 3000, both, ["partition"], violations, cands=False, recompute=False)
     elif pid == "C03":
         insts = l1_align(rep, ["3x1", "4x1"] if quick else ["2x2", "3x1", "3x2", "4x1", "5x1"], emit=True)
@@ -430,7 +439,7 @@ def run_property(pid, tier, rep):
         recs += fast_records(pa, rng, 60 if quick else 800)
     elif pid == "C07":
         l1_enum(rep, tier)
-        insts = l1_align(rep, ["2x2", "3x1", "4x1"] if quick else ["2x2", "2x2de2", "2x3", "3x1", "3x2", "4x1", "5x1"], emit=True,
+        insts = l1_align(rep, ["2x2", "3x1", "4x1", "3x1hi", "4x1hi"] if quick else ["2x2", "2x2de2", "2x3", "3x1", "3x2", "4x1", "5x1", "3x1hi", "4x1hi3", "3x2hi"], emit=True,
                          sample_mult=1 if quick else 3)
         recs = l2_records(pa, insts, ["CBC"], ["partition"], rng, violations, limit=300 if quick else None)
         recs += l3_records(pa, rng, 120 if quick else 1500, ["CBC"], ["partition"], violations, search=False, recompute=False,
@@ -454,7 +463,7 @@ def run_property(pid, tier, rep):
         recs = add_other_backend_cost(recs)
     elif pid == "C11":
         l1_align_mutants(rep)
-        insts = l1_align(rep, ["2x2", "3x1", "4x1"] if quick else list(UNIVERSES), emit=True, sample_mult=1 if quick else 4)
+        insts = l1_align(rep, ["2x2", "3x1", "4x1", "3x1hi"] if quick else list(UNIVERSES), emit=True, sample_mult=1 if quick else 4)
         recs = l2_records(pa, insts, both, ["partition", "soft"], rng, violations, limit=200 if quick else None)
         recs += l3_records(pa, rng, 200 if quick else 3000, both, ["partition", "soft"], violations, cands=False, recompute=False)
         recs = add_soft_le(recs)
